@@ -248,7 +248,8 @@ Section Frag.
     inv_kind : forall v c x, get t v = Some c -> cval c = Bound x -> kinded K x;
     inv_chain : forall v c h cs, get t v = Some c -> cval c = Bound (Node h cs) -> head_var h <> None ->
                 K v = KG /\ exists w k, occ_kind h = Some (w, k) /\ (k = KI \/ k = KF);
-    inv_num : forall v c x, get t v = Some c -> cval c = Bound x -> K v = KI \/ K v = KF -> exists s, x = Node (HScalar s) []
+    inv_num : forall v c x, get t v = Some c -> cval c = Bound x -> K v = KI \/ K v = KF -> exists s, x = Node (HScalar s) [];
+    inv_sort : forall v c x, get t v = Some c -> cval c = Bound x -> K v <> KL -> kind_of x = KTy
   }.
 
   Definition step (K : N -> vk) (U : N -> N) (t : table) (K' : N -> vk) (U' : N -> N) (t' : table) : Prop :=
@@ -339,6 +340,8 @@ Section Ops.
         rewrite (proj2 (UO v L)). exact (inv_chain _ _ _ _ I v c h cs Ev B Hh).
       + intros v c x E B HKv. destruct (G v c E) as [[L Ev] | [-> ->]]; [| discriminate B].
         rewrite (proj2 (UO v L)) in HKv. exact (inv_num _ _ _ _ I v c x Ev B HKv).
+      + intros v c x E B HKv. destruct (G v c E) as [[L Ev] | [-> ->]]; [| discriminate B].
+        rewrite (proj2 (UO v L)) in HKv. exact (inv_sort _ _ _ _ I v c x Ev B HKv).
     - split; [| split].
       + split.
         * intros v x (c & E & B). exists c. split; [| exact B]. unfold t'. rewrite get_new_variable_old; [exact E | eapply get_some_lt; exact E].
@@ -356,9 +359,10 @@ Section Ops.
     (forall h cs, g = Node h cs -> head_var h <> None ->
        (forall v cl, get t v = Some cl -> ccls cl = c -> K v = KG) /\ exists w k, occ_kind h = Some (w, k) /\ (k = KI \/ k = KF)) ->
     (forall v cl, get t v = Some cl -> ccls cl = c -> K v = KI \/ K v = KF -> exists s, g = Node (HScalar s) []) ->
+    (forall v cl, get t v = Some cl -> ccls cl = c -> K v <> KL -> kind_of g = KTy) ->
     inv K U (set_value c (Bound g) t) /\ step K U t K U (set_value c (Bound g) t).
   Proof.
-    intros I HU Hg Hw Hk Hc Hn. set (t' := set_value c (Bound g) t).
+    intros I HU Hg Hw Hk Hc Hn Hs. set (t' := set_value c (Bound g) t).
     assert (NV : nvars t' = nvars t) by apply nvars_set_value.
     split.
     - constructor.
@@ -388,6 +392,9 @@ Section Ops.
       + intros v c1 x E B HKv. destruct (get_set_value_inv _ _ _ _ _ E) as (a0 & A0 & _ & [[CA VA] | [CA ->]]).
         * rewrite VA in B. inversion B; subst. exact (Hn v a0 A0 eq_refl HKv).
         * exact (inv_num _ _ _ _ I v a0 x A0 B HKv).
+      + intros v c1 x E B HKv. destruct (get_set_value_inv _ _ _ _ _ E) as (a0 & A0 & _ & [[CA VA] | [CA ->]]).
+        * rewrite VA in B. inversion B; subst. exact (Hs v a0 A0 eq_refl HKv).
+        * exact (inv_sort _ _ _ _ I v a0 x A0 B HKv).
     - split; [| split].
       + split.
         * intros v x (c0 & E & B). exists c0. split; [| exact B]. unfold t'. rewrite get_set_value, E. cbn [option_map].
@@ -445,6 +452,9 @@ Section Ops.
       + intros v c1 x E B HKv. destruct (get_set_value_inv _ _ _ _ _ E) as (a0 & A0 & _ & [[CA VA] | [CA ->]]).
         * rewrite VA in B. discriminate B.
         * exact (inv_num _ _ _ _ I v a0 x A0 B HKv).
+      + intros v c1 x E B HKv. destruct (get_set_value_inv _ _ _ _ _ E) as (a0 & A0 & _ & [[CA VA] | [CA ->]]).
+        * rewrite VA in B. discriminate B.
+        * exact (inv_sort _ _ _ _ I v a0 x A0 B HKv).
     - split; [| split].
       + split.
         * intros v x (c0 & E & B). exists c0. split; [| exact B]. unfold t'. rewrite get_set_value, E. cbn [option_map].
@@ -514,6 +524,8 @@ Section Ops.
         exact (inv_chain _ _ _ _ I v a0 h cs A0 B Hh).
       + intros v c1 x E B HKv. destruct (get_merge_inv _ _ _ _ _ _ E) as (a0 & A0 & [[CA ->] | (CA1 & CA2 & ->)]); [discriminate B |].
         exact (inv_num _ _ _ _ I v a0 x A0 B HKv).
+      + intros v c1 x E B HKv. destruct (get_merge_inv _ _ _ _ _ _ E) as (a0 & A0 & [[CA ->] | (CA1 & CA2 & ->)]); [discriminate B |].
+        exact (inv_sort _ _ _ _ I v a0 x A0 B HKv).
     - split; [| split].
       + split.
         * intros v x (c0 & E & B). exists c0. split; [| exact B]. unfold t'. rewrite get_merge, E. cbn [option_map].
@@ -926,6 +938,24 @@ Section Specs.
   Lemma occ_kind_var h w k : occ_kind h = Some (w, k) -> head_var h = Some w.
   Proof. destruct h; try discriminate; try (destruct k0; intros Q; inversion Q; reflexivity); intros Q; inversion Q; reflexivity. Qed.
 
+  Lemma okt_var_kind K t h cs v : okt K t (Node h cs) -> head_var h = Some v -> kind_of (Node h cs) = KTy -> K v <> KL.
+  Proof.
+    intros (P & Kd & _) Hv Kt. apply allsub_node in Kd. destruct Kd as [Kd _].
+    destruct h; try discriminate Hv; try discriminate Kt; cbn [head_var] in Hv; inversion Hv; subst.
+    destruct k; cbn [occ_kind] in Kd; rewrite Kd; discriminate.
+  Qed.
+
+  Lemma shallow_ty_kind K U t a0 : inv K U t -> okt K t a0 -> kind_of a0 = KTy -> kind_of (shallow_ty t a0) = KTy.
+  Proof.
+    intros I O Kt. unfold shallow_ty. destruct (probe_tm t a0) as [p |] eqn:P1; [| exact Kt].
+    destruct (probe_tm_some _ _ _ P1) as (h & cs & v & c & -> & Hv & E & B).
+    pose proof (okt_value K U t v c p I E B) as Op.
+    pose proof (inv_sort _ _ _ _ I v c p E B (okt_var_kind K t h cs v O Hv Kt)) as Kp.
+    destruct (probe_tm t p) as [q |] eqn:P2; [| exact Kp].
+    destruct (probe_tm_some _ _ _ P2) as (h' & cs' & w & c' & -> & Hw & E' & B').
+    exact (inv_sort _ _ _ _ I w c' q E' B' (okt_var_kind K t h' cs' w Op Hw Kp)).
+  Qed.
+
   Lemma shallow_ty_spec K U t gs a0 :
     inv K U t -> okt K t a0 ->
     okt K t (shallow_ty t a0) /\ teq t gs a0 (shallow_ty t a0) /\ nrm t (shallow_ty t a0).
@@ -1003,10 +1033,11 @@ Section Specs.
     okt K t g -> wellb U (nvars t) u g ->
     (forall h cs, g = Node h cs -> head_var h <> None -> K v = KG /\ exists w k, occ_kind h = Some (w, k) /\ (k = KI \/ k = KF)) ->
     (K v = KI \/ K v = KF -> exists s, g = Node (HScalar s) []) ->
+    (K v <> KL -> kind_of g = KTy) ->
     bind_var v g t = (Done r, t1, g1) ->
     g1 = [] /\ inv K U t1 /\ step K U t K U t1 /\ bound_to t1 v g.
   Proof.
-    intros I E B (Pg & Kg & _) Wg Hc Hn H. unfold bind_var in H.
+    intros I E B (Pg & Kg & _) Wg Hc Hn Hs H. unfold bind_var in H.
     apply bind_inv in H. destruct H as (c' & t2 & g2 & g3 & H1 & H2 & ->). apply get_cell_inv in H1. destruct H1 as (-> & -> & E').
     rewrite E in E'. inversion E'; subst c'. rewrite B in H2. inversion H2; subst. clear H2.
     assert (HU : forall w cl, get t w = Some cl -> ccls cl = ccls c -> cval cl = Unbound u).
@@ -1015,6 +1046,7 @@ Section Specs.
     - intros h cs Q HV. destruct (Hc h cs Q HV) as [A B']. split; [| exact B'].
       intros w cl Ew Qc. rewrite (inv_ck _ _ _ _ I w v cl c Ew E Qc). exact A.
     - intros w cl Ew Qc HK. apply Hn. rewrite <- (inv_ck _ _ _ _ I w v cl c Ew E Qc). exact HK.
+    - intros w cl Ew Qc HK. apply Hs. rewrite <- (inv_ck _ _ _ _ I w v cl c Ew E Qc). exact HK.
     - split; [reflexivity |]. split; [exact I1 |]. split; [exact S1 |].
       eexists. rewrite get_set_value, E. cbn [option_map]. rewrite N.eqb_refl. split; reflexivity.
   Qed.
@@ -1063,6 +1095,7 @@ Section Specs.
     - destruct (bindvar_spec K U t va c u b r t1 g3 I E B Ob (Wb u L)) as (-> & I1 & S1 & Bd); try exact H2.
       + intros h cs Q HV. rewrite (NVb h cs Q) in HV. contradiction.
       + intros [Q | Q]; congruence.
+      + intros Q. contradiction.
       + split; [exact I1 |]. split; [exact S1 |]. eapply teq_bound; [reflexivity | exact Bd].
     - apply push_outlives_inv in H2. destruct H2 as (-> & ->). split; [exact I |]. split; [apply step_refl |].
       apply teq_outlives; try reflexivity; try exact Kb; cbn [app In]; auto.
@@ -1199,6 +1232,7 @@ Section Specs.
       { intros KN. rewrite K4var, Kvar in KN. destruct k; try (destruct KN; discriminate).
         - destruct hty; try discriminate FILT. destruct s; try discriminate FILT; rewrite (okt_nil _ _ _ _ Og eq_refl); eauto.
         - destruct hty; try discriminate FILT. destruct s; try discriminate FILT; rewrite (okt_nil _ _ _ _ Og eq_refl); eauto. }
+      { intros _. exact Kty. }
       destruct (IHrec (Node hty csg) (Node hty cs1) K4 U4 t5 r t1 g9 I5 (okt_step _ _ _ _ _ _ _ S5 Og)
                       (okt_step _ _ _ _ _ _ _ S5 (okt_step _ _ _ _ _ _ _ S4 O1)) H8) as (K6 & U6 & I6 & S6 & T6).
       exists K6, U6. split; [exact I6 |].
@@ -1209,5 +1243,123 @@ Section Specs.
       - eapply pext_trans; [apply S4 |]. eapply pext_trans; [apply S5 | apply S6].
       - apply incl_appl. apply incl_refl.
     Qed.
+  
+    Lemma tcls_pfrag K t a : okt K t a -> kind_of a = KTy ->
+      match tcls_of a with
+      | CInfer v k => exists cs, a = Node (HInfer v k) cs
+      | CPh => exists u i cs, a = Node (HPlaceholder u i) cs
+      | COther => exists h cs, a = Node h cs /\ head_var h = None /\ structural_head h = true
+      | _ => False
+      end.
+    Proof.
+      intros (P & _) Ka. destruct a as [| | h cs]; try discriminate P. apply pfrag_node in P. destruct P as (n & Q & _).
+      destruct h; try discriminate Q; try discriminate Ka; cbn [tcls_of]; eauto 8.
+    Qed.
+
+    Lemma same_head_len K t h ca cb : okt K t (Node h ca) -> okt K t (Node h cb) -> length ca = length cb.
+    Proof.
+      intros (Pa & _) (Pb & _). apply pfrag_node in Pa, Pb. destruct Pa as (n & Q & L & _), Pb as (n' & Q' & L' & _). congruence.
+    Qed.
+
+    Lemma child_variance_inv h i : child_variance adt_var fn_var h Invariant i = Invariant.
+    Proof. destruct h; cbn [child_variance xform]; try reflexivity. destruct i; reflexivity. Qed.
+
+    (** a general unknown bound to an integer / float unknown *)
+    Lemma bind_specific_spec K U t v1 cs1 v2 k2 cs2 r t1 g1 :
+      inv K U t -> okt K t (Node (HInfer v1 General) cs1) -> nrm t (Node (HInfer v1 General) cs1) ->
+      okt K t (Node (HInfer v2 k2) cs2) -> k2 <> General ->
+      bind_var v1 (Node (HInfer v2 k2) cs2) t = (Done r, t1, g1) ->
+      rel_post (Node (HInfer v1 General) cs1) (Node (HInfer v2 k2) cs2) K U t t1 g1.
+    Proof.
+      intros I O1 N1 O2 NG H. pose proof H as H'. unfold bind_var in H'.
+      apply bind_inv in H'. destruct H' as (c & t2 & g2 & g3 & H1 & _ & _). apply get_cell_inv in H1. destruct H1 as (_ & _ & E).
+      destruct (N1 _ _ v1 c eq_refl eq_refl E) as (u & B).
+      assert (K1 : K v1 = KG). { destruct O1 as (_ & Kv & _). apply allsub_node in Kv. apply Kv. }
+      pose proof (okt_nil _ _ _ _ O2 eq_refl) as ->.
+      destruct (bindvar_spec K U t v1 c u (Node (HInfer v2 k2) []) r t1 g1 I E B O2) as (-> & I1 & S1 & Bd); try exact H.
+      - apply allsub_node. split; [| constructor]. split.
+        + destruct O2 as (_ & _ & Sc). apply allsub_node in Sc. apply Sc.
+        + destruct k2; [contradiction | exact Logic.I | exact Logic.I].
+      - intros h cs Q _. inversion Q; subst. split; [exact K1 |]. destruct k2; [contradiction | |]; eauto.
+      - intros [Q | Q]; congruence.
+      - intros _. reflexivity.
+      - exists K, U. split; [exact I1 |]. split; [exact S1 |]. eapply teq_bound; [reflexivity | exact Bd].
+    Qed.
+
+    Lemma rel_ty_norm_spec K U t a b r t1 g1 :
+      inv K U t -> okt K t a -> okt K t b -> nrm t a -> nrm t b -> kind_of a = KTy -> kind_of b = KTy ->
+      rel_ty_norm adt_var fn_var f rec Invariant a b t = (Done r, t1, g1) -> rel_post a b K U t t1 g1.
+    Proof.
+      intros I Oa Ob Na Nb Ka Kb H. unfold rel_ty_norm in H.
+      destruct (tm_eqb a b) eqn:EQ.
+      { apply tm_eqb_eq in EQ. subst b. apply ret_inv in H. destruct H as (_ & -> & ->). exists K, U. split; [exact I |]. split; [apply step_refl | apply teq_refl]. }
+      pose proof (tcls_pfrag K t a Oa Ka) as CA. pose proof (tcls_pfrag K t b Ob Kb) as CB.
+      assert (SYM : rel_post b a K U t t1 g1 -> rel_post a b K U t t1 g1).
+      { intros (K1 & U1 & I1 & S1 & T1). exists K1, U1. split; [exact I1 |]. split; [exact S1 | apply teq_sym; exact T1]. }
+      assert (KV : forall v k cs x, x = Node (HInfer v k) cs -> okt K t x -> K v = match k with General => KG | Integer => KI | FloatVar => KF end).
+      { intros v k cs x -> (_ & Kv & _). apply allsub_node in Kv. destruct Kv as [Kv _]. destruct k; exact Kv. }
+      assert (UNB : forall v k cs x, x = Node (HInfer v k) cs -> nrm t x -> forall c, get t v = Some c -> exists u, cval c = Unbound u).
+      { intros v k cs x -> Nx c E. eapply Nx; [reflexivity | reflexivity | exact E]. }
+      destruct (tcls_of a) as [v1 k1 | | | | | | |] eqn:TA; try contradiction; destruct (tcls_of b) as [v2 k2 | | | | | | |] eqn:TB; try contradiction;
+        cbv iota in H; try (apply fail_inv in H; discriminate H).
+      - (* unknown / unknown *)
+        destruct CA as (cs1 & Qa). destruct CB as (cs2 & Qb).
+        pose proof (KV _ _ _ _ Qa Oa) as K1. pose proof (KV _ _ _ _ Qb Ob) as K2.
+        assert (UNION : union_vars v1 v2 t = (Done r, t1, g1) -> K v1 = K v2 -> rel_post a b K U t t1 g1).
+        { intros HU HK. destruct (union_spec' K U t v1 v2 r t1 g1 I (UNB _ _ _ _ Qa Na) (UNB _ _ _ _ Qb Nb) HK HU) as (-> & U1 & I1 & S1 & SC).
+          exists K, U1. split; [exact I1 |]. split; [exact S1 |]. subst a b. eapply teq_class; [reflexivity | reflexivity | exact SC]. }
+        destruct k1, k2; cbn [tvk_eqb andb] in H; try (apply fail_inv in H; discriminate H);
+          try (apply UNION; [exact H | congruence]).
+        + subst a b. eapply bind_specific_spec; try eassumption. discriminate.
+        + subst a b. eapply bind_specific_spec; try eassumption. discriminate.
+        + apply SYM. subst a b. eapply bind_specific_spec; try eassumption. discriminate.
+        + apply SYM. subst a b. eapply bind_specific_spec; try eassumption. discriminate.
+      - (* unknown / placeholder *)
+        destruct CA as (cs1 & ->). destruct CB as (u & i & cs2 & ->).
+        eapply rel_var_ty_spec; try eassumption. intros h cs' Q. inversion Q; reflexivity.
+      - (* unknown / rigid *)
+        destruct CA as (cs1 & ->). destruct CB as (hb & cs2 & -> & NV & _).
+        eapply rel_var_ty_spec; try eassumption. intros h cs' Q. inversion Q; subst. exact NV.
+      - (* placeholder / unknown *)
+        destruct CB as (cs1 & ->). destruct CA as (u & i & cs2 & ->). apply SYM. cbn [invert] in H.
+        eapply rel_var_ty_spec; try eassumption. intros h cs' Q. inversion Q; reflexivity.
+      - (* rigid / unknown *)
+        destruct CB as (cs1 & ->). destruct CA as (ha & cs2 & -> & NV & _). apply SYM. cbn [invert] in H.
+        eapply rel_var_ty_spec; try eassumption. intros h cs' Q. inversion Q; subst. exact NV.
+      - (* rigid / rigid *)
+        destruct CA as (ha & ca & -> & _ & SA). destruct CB as (hb & cb & -> & _ & _).
+        rewrite SA in H. unfold head_eqb in H. destruct (head_eq_dec ha hb) as [<- | NE]; cbn [andb] in H; [| apply fail_inv in H; discriminate H].
+        destruct (zip_spec (child_variance adt_var fn_var ha Invariant) (child_variance_inv ha) ca cb 0%nat K U t r t1 g1 I
+                           (okt_children K t ha ca Oa) (okt_children K t ha cb Ob) (same_head_len K t ha ca cb Oa Ob) H) as (K1 & U1 & I1 & S1 & T1).
+        exists K1, U1. split; [exact I1 |]. split; [exact S1 | apply teq_node; exact T1].
+    Qed.
   End RelLevel.
+
+  (** *** The zipper, and [InferenceTable::relate] *)
+
+  Lemma rel_spec : forall f a b K U t r t1 g1,
+    inv K U t -> okt K t a -> okt K t b ->
+    rel adt_var fn_var f Invariant a b t = (Done r, t1, g1) -> rel_post a b K U t t1 g1.
+  Proof.
+    induction f as [| f IH]; intros a b K U t r t1 g1 I Oa Ob H; cbn [rel] in H; [apply fail_inv in H; discriminate H |].
+    destruct (kind_of a) eqn:Ka; destruct (kind_of b) eqn:Kb; try (apply fail_inv in H; discriminate H).
+    - (* types *)
+      unfold rel_ty in H. apply bind_inv in H. destruct H as (tb & t2 & g2 & g3 & H1 & H2 & ->). inversion H1; subst tb t2 g2. clear H1.
+      destruct (shallow_ty_spec K U t (g3) a I Oa) as (Oa' & Ta & Na). destruct (shallow_ty_spec K U t (g3) b I Ob) as (Ob' & Tb & Nb).
+      pose proof (shallow_ty_kind K U t a I Oa Ka) as KA. pose proof (shallow_ty_kind K U t b I Ob Kb) as KB.
+      destruct (rel_ty_norm_spec f (rel adt_var fn_var f) IH K U t _ _ r t1 g3 I Oa' Ob' Na Nb KA KB H2) as (K1 & U1 & I1 & S1 & T1).
+      exists K1, U1. split; [exact I1 |]. split; [exact S1 |]. cbn [app].
+      eapply teq_trans; [eapply teq_step; [exact S1 | apply incl_refl | exact Ta] |].
+      eapply teq_trans; [exact T1 |]. apply teq_sym. eapply teq_step; [exact S1 | apply incl_refl | exact Tb].
+    - (* lifetimes *)
+      unfold rel_lt in H. apply bind_inv in H. destruct H as (tb & t2 & g2 & g3 & H1 & H2 & ->). inversion H1; subst tb t2 g2. clear H1.
+      destruct (shallow1_spec K U t g3 a I Oa Ka) as (Oa' & Ta & Na). destruct (shallow1_spec K U t g3 b I Ob Kb) as (Ob' & Tb & Nb).
+      destruct (rel_lt_norm_spec K U t _ _ r t1 g3 I Oa' Ob' Na Nb H2) as (U1 & I1 & S1 & T1).
+      exists K, U1. split; [exact I1 |]. split; [exact S1 |]. cbn [app].
+      eapply teq_trans; [eapply teq_step; [exact S1 | apply incl_refl | exact Ta] |].
+      eapply teq_trans; [exact T1 |]. apply teq_sym. eapply teq_step; [exact S1 | apply incl_refl | exact Tb].
+    - (* consts: not in the fragment *)
+      destruct Oa as (Pa & _). destruct a as [| | h cs]; try discriminate Pa. apply pfrag_node in Pa. destruct Pa as (n & Q & _).
+      destruct h; try discriminate Ka; discriminate Q.
+  Qed.
 End Specs.
